@@ -54,15 +54,18 @@ Explains18a(v) ==
   THEN {"c18_zero_port_usable"} ELSE {}
 
 \* --- part 2: fallback over the well-known ports ---
-\* v.outcomes: what connecting to each well-known port does, in order: "ok" | "connerr" | "other"
+\* v.outcomes: what connecting to each well-known port does, in order: "ok" | "connerr" | "other" | "socksfail" | "hangup"
 \* v.obs: [tried (ports tried, in order), result ("ok" | "connerr" | "other"), which (index of the outcome reported)]
 WellKnown == <<9050, 9150>>
 FirstNot(outs) == IF \E i \in 1..Len(outs) : outs[i] # "connerr"
                   THEN CHOOSE i \in 1..Len(outs) : outs[i] # "connerr" /\ \A j \in 1..(i-1) : outs[j] = "connerr"
                   ELSE Len(outs)
+\* "socksfail" (the TCP connection is made, the SOCKS request is refused) and "hangup" (made, then closed during
+\* the negotiation) are not connection errors: that port had a listener, so the next one is not tried
+Cat(o) == IF o \in {"socksfail", "hangup"} THEN "other" ELSE o
 Holds18b(v) ==
   LET k == FirstNot(v.outcomes) IN
   /\ v.obs.tried = SubSeq(WellKnown, 1, k)             \* in order, moving on only after a connection error
-  /\ v.obs.result = v.outcomes[k]                       \* the first success / other error, or the LAST connection error
+  /\ v.obs.result = Cat(v.outcomes[k])                  \* the first success / other error, or the LAST connection error
   /\ v.obs.which = k
 =============================================================================
